@@ -77,7 +77,7 @@ func releaseUnUsedIP(log logr.Logger, eni *networkv1beta1.NetworkInterface, toDe
 	_, inUseV6 := IPUsage(eni.IPv6)
 	// try delete eni, only if no one use it
 	if inUse == 0 && inUseV6 == 0 &&
-		len(eni.IPv4) < toDel && len(eni.IPv6) < toDel &&
+		len(eni.IPv4) <= toDel && len(eni.IPv6) <= toDel &&
 		eni.NetworkInterfaceType == networkv1beta1.ENITypeSecondary &&
 		eni.NetworkInterfaceTrafficMode == networkv1beta1.NetworkInterfaceTrafficModeStandard {
 
